@@ -3,6 +3,7 @@ package rules
 import (
 	"fmt"
 	"go/token"
+	"sort"
 	"strings"
 
 	"aghverif/core"
@@ -349,4 +350,110 @@ func runC09(c *Ctx) {
 		}
 	}
 	r.Floor("C09-D4", "loadUnits-returns", n, 2)
+	c09Rollover(c)
+}
+
+// c09Rollover: D5.  The rollover transaction is abandoned only because of an
+// error, and the retention (which bucket the rollover deletes) is derived from
+// state that every writer of the retention limit keeps up to date.
+func c09Rollover(c *Ctx) {
+	p, r := c.P, c.R
+	fdb := p.Fn("(*stats.StatsCtx).flushDB")
+	fl := p.Fn("(*stats.StatsCtx).flush")
+	if fdb == nil || fl == nil {
+		r.Undecided("C09-D5", "flush/flushDB", "-", "anchors not found")
+		return
+	}
+	// (a) the commit flag is cleared only on an edge where some error is non-nil
+	var flag *ssa.Alloc
+	for _, call := range core.CallsTo(fdb, "stats.finishTxn") {
+		_ = call
+	}
+	for _, an := range append([]*ssa.Function{fdb}, fdb.AnonFuncs...) {
+		for _, call := range core.CallsTo(an, "stats.finishTxn") {
+			if len(call.Common.Args) == 2 {
+				flag = core.CellOf(call.Common.Args[1])
+			}
+		}
+	}
+	if flag == nil {
+		r.Undecided("C09-D5", "commit-flag", p.FnPos(fdb), "the commit flag handed to finishTxn was not found")
+	} else {
+		errNonNil, nE := core.CondEdges(fdb, func(at core.Atom) (bool, bool) {
+			if (at.Op == token.NEQ || at.Op == token.EQL) && core.IsNilConst(at.Other) && at.Base.Type().String() == "error" {
+				return true, at.Op == token.NEQ
+			}
+			return false, false
+		})
+		isClear := func(in ssa.Instruction) bool {
+			st, ok := in.(*ssa.Store)
+			if !ok || st.Addr != ssa.Value(flag) {
+				return false
+			}
+			b, isC := core.ConstBool(st.Val)
+			return isC && !b
+		}
+		off, ns := core.UnguardedSinks(fdb, isClear, errNonNil)
+		r.Check(nE > 0 && ns > 0 && len(off) == 0, "C09-D5", "rollback-only-on-error", p.FnPos(fdb),
+			"the rollover transaction is rolled back only on a path where an error was returned (a successful delete of the expired bucket commits)",
+			"the rollover transaction can be rolled back although every operation succeeded: the hour that just ended is lost (and the expired bucket stays, so every later rollover fails the same way)", traceOf(p, off)...)
+	}
+	// (b) coherence of the retention used for the deletion
+	calls := []core.Call{}
+	for _, call := range core.Calls(fl) {
+		if call.Common.StaticCallee() == fdb {
+			calls = append(calls, call)
+		}
+	}
+	if len(calls) != 1 || len(calls[0].Common.Args) < 3 {
+		r.Undecided("C09-D5", "retention-source", p.FnPos(fl), "the flushDB call in flush was not found")
+		return
+	}
+	writers := func(field string) map[string]bool {
+		out := map[string]bool{}
+		for _, fn := range p.ModFnsIn("stats") {
+			for _, b := range fn.Blocks {
+				for _, in := range b.Instrs {
+					if st, ok := in.(*ssa.Store); ok {
+						if fr, ok := core.FieldOfAddr(st.Addr); ok && fr.Type == "stats.StatsCtx" && fr.Field == field {
+							k := core.FuncKey(fn)
+							if fn.Parent() != nil {
+								k = core.FuncKey(fn.Parent())
+							}
+							out[k] = true
+						}
+					}
+				}
+			}
+		}
+		return out
+	}
+	var srcs []string
+	for _, o := range core.Origins(calls[0].Common.Args[2], core.ProvOpts{Prog: p, Transparent: map[string]bool{"(time.Duration).Hours": true}}) {
+		if o.Kind == "field" && strings.HasPrefix(o.Key, "stats.StatsCtx.") {
+			srcs = append(srcs, strings.TrimPrefix(o.Key, "stats.StatsCtx."))
+		}
+	}
+	sort.Strings(srcs)
+	if len(srcs) == 0 {
+		r.Fail("C09-D5", "retention-source", p.InstrPos(calls[0].Instr), "the retention handed to the rollover does not come from the statistics configuration")
+		return
+	}
+	base := writers("limit")
+	var missing []string
+	for _, f := range srcs {
+		if f == "limit" {
+			continue
+		}
+		wf := writers(f)
+		for w := range base {
+			if !wf[w] {
+				missing = append(missing, fmt.Sprintf("%s sets the limit but not %s", w, f))
+			}
+		}
+	}
+	sort.Strings(missing)
+	r.Check(len(missing) == 0, "C09-D5", "retention-follows-limit", p.InstrPos(calls[0].Instr),
+		fmt.Sprintf("the bucket the rollover deletes is computed from %v, which every writer of the retention limit keeps up to date", srcs),
+		fmt.Sprintf("the bucket the rollover deletes is computed from %v, which is not updated by every writer of the retention limit: after a limit change buckets inside the reported window are deleted (or expired ones kept)", srcs), missing...)
 }
